@@ -4,14 +4,76 @@
  * private copy of fd 1 and stdout itself is pointed at /dev/null. */
 #include "h_proto.h"
 #include <unistd.h>
+#include "ref_dict.h"
+#include "ref_grid.h"
 #include "ref_list.h"
+#include "ref_mpi.h"
 #include "ref_node.h"
+#include "ref_phys.h"
 #include "ref_search.h"
 
 static FILE *out;
 static REF_SEARCH tree = NULL;
 static double *segs = NULL, *tris = NULL;
 static int nseg = 0, ntri = 0, cseg = 0, ctri = 0;
+
+static REF_MPI h_mpi = NULL;
+
+/* `walldist per mask q...`: the real ref_phys_wall_distance (serial) on a grid made of the session's elements.
+ * element i carries face id 1 + i%3; id j is a viscous wall (bc 4000) iff bit j-1 of mask is set, id 2 is stored
+ * with a non-wall bc otherwise, ids 1 and 3 are then absent from the dict.  Prints the distance of the query nodes. */
+static void wall_distance(int per, int mask, int nq, char **qw) {
+  REF_GRID grid = NULL;
+  REF_DICT dict = NULL;
+  REF_NODE ref_node;
+  REF_DBL *distance = NULL;
+  REF_STATUS st = REF_SUCCESS;
+  int ncell = per == 2 ? nseg : ntri, e, v, i, node, cell, first_q;
+  double *xyz = per == 2 ? segs : tris;
+  REF_GLOB g = 0;
+  REF_INT nodes[REF_CELL_MAX_SIZE_PER];
+  if (!h_mpi) st = ref_mpi_create(&h_mpi);
+  if (REF_SUCCESS == st) st = ref_grid_create(&grid, h_mpi);
+  if (REF_SUCCESS != st) { fprintf(out, "%s\n", h_status(st)); return; }
+  if (2 == per) ref_grid_twod(grid) = REF_TRUE;
+  ref_node = ref_grid_node(grid);
+  for (e = 0; REF_SUCCESS == st && e < ncell; e++) {
+    for (v = 0; REF_SUCCESS == st && v < per; v++) {
+      st = ref_node_add(ref_node, g++, &node);
+      if (REF_SUCCESS != st) break;
+      for (i = 0; i < 3; i++) ref_node_xyz(ref_node, i, node) = xyz[i + 3 * v + 3 * per * e];
+      nodes[v] = node;
+    }
+    nodes[per] = 1 + e % 3;
+    if (REF_SUCCESS == st) st = ref_cell_add(2 == per ? ref_grid_edg(grid) : ref_grid_tri(grid), nodes, &cell);
+  }
+  first_q = (int)g;
+  for (e = 0; REF_SUCCESS == st && e < nq; e++) {
+    st = ref_node_add(ref_node, g++, &node);
+    if (REF_SUCCESS != st) break;
+    for (i = 0; i < 3; i++) ref_node_xyz(ref_node, i, node) = h_f(qw[3 * e + i]);
+  }
+  if (REF_SUCCESS == st) st = ref_dict_create(&dict);
+  for (i = 1; REF_SUCCESS == st && i <= 3; i++) {
+    if (mask & (1 << (i - 1))) st = ref_dict_store(dict, i, 4000);
+    else if (2 == i) st = ref_dict_store(dict, i, 5000);
+  }
+  if (REF_SUCCESS == st) {
+    distance = (REF_DBL *)malloc(sizeof(REF_DBL) * (size_t)(ref_node_max(ref_node) + 1));
+    for (i = 0; i < ref_node_max(ref_node); i++) distance[i] = -1.0;
+    st = ref_phys_wall_distance(grid, dict, distance);
+  }
+  fprintf(out, "%s", h_status(st));
+  if (REF_SUCCESS == st)
+    for (e = 0; e < nq; e++) { /* nodes were added with ascending globals into an empty node list: local == global */
+      fputc(' ', out);
+      h_pf(out, distance[first_q + e]);
+    }
+  fputc('\n', out);
+  free(distance);
+  if (dict) ref_dict_free(dict);
+  if (grid) ref_grid_free(grid);
+}
 
 static int valid_f(const char *s) {
   int i;
@@ -174,6 +236,10 @@ int main(void) {
         if (REF_SUCCESS == st) st = ref_search_insert(tree, cell, center, scale * radius);
       }
       fprintf(out, "%s\n", h_status(st));
+    } else if (0 == strcmp(op, "walldist") && h_nw >= 3 && (0 == strcmp(h_w[1], "2") || 0 == strcmp(h_w[1], "3")) &&
+               valid_i(h_w[2]) && h_i(h_w[2]) >= 1 && h_i(h_w[2]) <= 7 && (h_nw - 3) % 3 == 0 &&
+               valid_fs(3, h_nw - 3)) {
+      wall_distance(h_w[1][0] - '0', (int)h_i(h_w[2]), (h_nw - 3) / 3, h_w + 3);
     } else if (0 == strcmp(op, "d2") && valid_fs(1, 9)) {
       double v[9], d;
       int i;
